@@ -4,6 +4,7 @@ CONSTANT K4 = 3
 CONSTANT K5 = 1
 CONSTANT DeepN = 3
 CONSTANT DeepK = 5
+CONSTANT DeepMinLinks = 0
 CONSTANT Mode = "cases"
 INIT Init
 NEXT Next
